@@ -1287,7 +1287,7 @@ Section InlineProofs.
     end.
 
   (* ConditionsSet.invert negates (C03); the uncertain bitmap is consistent with IsZero *)
-  Hypothesis Hinvert : forall d, eval_dnf (invert d) = negb (eval_dnf d).
+  Hypothesis Hinvert : forall d, d <> [] -> eval_dnf (invert d) = negb (eval_dnf d).
   Hypothesis Hany : forall t td, tags t = Some td -> td_uncertain td sid = true -> td_any_uncertain td = true.
 
   Lemma eval_dnf_app : forall d1 d2, eval_dnf (d1 ++ d2) = eval_dnf d1 || eval_dnf d2.
@@ -1366,9 +1366,11 @@ Section InlineProofs.
           destruct (rec (td_conditions td)) as [tcs|] eqn:Er; [|discriminate].
           rewrite (IH _ _ H). unfold inline_step.
           rewrite eval_dnf_app, eval_dnf_map_app, eval_dnf_flat, eval_conj_single, sem_conj_cons.
-          assert (Ht : eval_dnf (if acc_um a then tcs else invert tcs) =
+          assert (Ht : eval_dnf (if acc_um a then tcs else match tcs with [] => [[]] | _ => invert tcs end) =
                        if acc_um a then truth (td_conditions td) else negb (truth (td_conditions td))).
-          { destruct (acc_um a); [|rewrite Hinvert]; rewrite (Hrec Er); auto. }
+          { pose proof (Hrec Er) as Hr. destruct (acc_um a); auto.
+            destruct tcs as [|t0 tcs0]; [rewrite <- Hr; reflexivity|].
+            rewrite Hinvert; [rewrite Hr; auto | discriminate]. }
           rewrite Ht. simpl. rewrite Et. unfold accepts. simpl.
           destruct (acc_um a) eqn:Eum, (acc_uf a) eqn:Euf; simpl in E1; try discriminate; simpl;
             destruct (td_uncertain td sid), (td_matches td sid), (truth (td_conditions td)),
@@ -1426,7 +1428,7 @@ Qed.
    by the tag definitions: all theorems of section H hold with that meaning as [sat]. *)
 Theorem file_ok_inlined : forall (atom tagname : Type) (tags : tagname -> option (tagdetails atom tagname))
     (invert : dnf atom tagname -> dnf atom tagname) (eval_atom : stream -> atom -> bool) fuel d d' fs,
-  (forall s dd, eval_dnf tags (eval_atom s) (s_id s) (invert dd) = negb (eval_dnf tags (eval_atom s) (s_id s) dd)) ->
+  (forall s dd, dd <> [] -> eval_dnf tags (eval_atom s) (s_id s) (invert dd) = negb (eval_dnf tags (eval_atom s) (s_id s) dd)) ->
   (forall s t td, tags t = Some td -> td_uncertain td (s_id s) = true -> td_any_uncertain td = true) ->
   inline_dnf tags invert fuel d = Some d' ->
   Forall (file_ok (fun s => eval_dnf tags (eval_atom s) (s_id s) d')) fs ->
